@@ -229,12 +229,12 @@ def r4_calls(run, F):
         if n.get("k") == "If":
             c = hirq.unwrap_trivial(n["cond"])
             if c.get("k") == "Binary" and c.get("op") in ("Lt", "Gt", "Le", "Ge", "Ne", "Eq"):
-                ln = [x.get("name") for x in walk(c) if x.get("k") == "MethodCall"]
                 lo = [hirq.local_name_of(hirq.unwrap_trivial(x["recv"])) for x in walk(c) if x.get("k") == "MethodCall" and x.get("name") == "len"]
                 cons = [hirq.short(p) for p, _ in hirq.constructs(n["then"]) if hirq.short(p).startswith("Error::")]
-                if lo == ["arguments", "parameters"]:
-                    cmps.append((c["op"], cons[:1]))
-    ok = sorted(cmps) == sorted([("Lt", ["Error::TooFewArguments"]), ("Gt", ["Error::TooManyArguments"])])
+                if "arguments" in lo or "parameters" in lo:
+                    cmps.append((hirq.summarize_bool(c), cons[:1]))
+    ok = sorted(cmps) == sorted([("(arguments.len() < parameters.len())", ["Error::TooFewArguments"]),
+                                 ("(arguments.len() > parameters.len())", ["Error::TooManyArguments"])])
     run.ob("R4-ARITY", "use_function", ok, F.where(b),
            "both arity comparisons must exist: arguments.len() < parameters.len() -> TooFewArguments, > -> TooManyArguments: %s" % cmps, sample=cmps)
     # per-argument comparison
